@@ -408,3 +408,67 @@ func (li *lockInfo) describeEdges() []string {
 	sort.Strings(out)
 	return out
 }
+
+// lockLeakRule: every acquire is released on all exits. For each Lock call L of
+// lock id in fn, a return reachable from L without passing Unlock(id) or a
+// `defer Unlock(id)` is a leak — unless a `defer Unlock(id)` is already
+// registered on every path to L (re-acquire inside a deferred-unlock region).
+func (c *Ctx) lockLeakRule(rule string) {
+	p := c.P
+	for _, fn := range p.Funcs {
+		fn := fn
+		allInstrs(fn, func(in ssa.Instruction) {
+			call, ok := in.(*ssa.Call)
+			if !ok {
+				return
+			}
+			id, op := p.lockOp(call)
+			if op != 1 {
+				return
+			}
+			construct := fmt.Sprintf("%s: acquire of %s", fname(fn), id)
+			isRelease := func(x ssa.Instruction) bool {
+				ci, ok := x.(ssa.CallInstruction)
+				if !ok {
+					return false
+				}
+				if _, isGo := x.(*ssa.Go); isGo {
+					return false
+				}
+				id2, op2 := p.lockOp(ci)
+				if op2 == -1 && id2 == id {
+					return true
+				}
+				// deferred closure that unlocks
+				if df, isDefer := x.(*ssa.Defer); isDefer {
+					if cl := staticCallee(df); cl != nil && p.allFns[cl] {
+						rel := false
+						allInstrs(cl, func(y ssa.Instruction) {
+							if cy, ok := y.(*ssa.Call); ok {
+								if i3, o3 := p.lockOp(cy); o3 == -1 && i3 == id {
+									rel = true
+								}
+							}
+						})
+						return rel
+					}
+				}
+				return false
+			}
+			isDeferRelease := func(x ssa.Instruction) bool {
+				_, isDefer := x.(*ssa.Defer)
+				return isDefer && isRelease(x)
+			}
+			ret := reachFrom(call, isReturn, isRelease)
+			if ret == nil {
+				c.ok(rule, construct, c.ipos(call), "released on every path to a return")
+				return
+			}
+			if mustPrecede(fn, isDeferRelease, call) {
+				c.ok(rule, construct, c.ipos(call), "re-acquired inside a region whose deferred unlock is already registered")
+				return
+			}
+			c.bad(rule, construct, c.ipos(ret), fmt.Sprintf("a return is reachable with %s still locked: every later user of the lock (frame executor, cleanup on exit) blocks for ever", id))
+		})
+	}
+}
